@@ -238,6 +238,15 @@ def obligations(tier):
     obs.append(link_step(w, 'root', 'vel', Q, origin=True))
   obs += [regroup_tree(4), regroup_types(4 if tier == 'quick' else 5), bounded(tier)]
 
+  def _sv():
+    from brax import kinematics
+    sys = physsys.load(physsys.xml_free_parent('hsh'))
+    f = lambda q_, qd_: (lambda o: (o[0].pos, o[0].rot, o[1].ang, o[1].vel))(kinematics.forward(sys, q_, qd_))
+    q0 = np.concatenate([np.array([0.1, 0.2, 0.3, 0.5, 0.5, -0.5, 0.5]), np.zeros(3)])
+    return f, [q0, np.zeros(9)]
+  from verif.contracts.common import engine_selfcheck
+  obs.append(engine_selfcheck('C01/engine/self_validation[forward f+hsh]', 'brax.kinematics:forward', _sv))
+
   def canary():
     # pose claim with the anchor offset sign flipped in the spec must be refuted
     from verif.engine.opaque import cut
